@@ -147,7 +147,7 @@ def xml(n, dm="null", nvars=0):
 class Gen:
     def __init__(self, rng, max_states=10, events=("e", "f", "g"), p_history=0.3, p_parallel=0.35,
                  p_exec=0.5, p_fail=0.08, p_targetless=0.15, p_internal=0.15, p_multi=0.25, p_eventless=0.15,
-                 p_cond=0.25, p_initial_elem=0.3, p_final=0.3, dm="null"):
+                 p_cond=0.25, p_initial_elem=0.3, p_final=0.3, p_loop=0.25, dm="null"):
         self.__dict__.update(locals())
         self.n = 0
         self.uv = 0
@@ -215,9 +215,9 @@ class Gen:
         for _ in range(r.randint(1, 3)):
             x = r.random()
             if x < self.p_fail: out.append(("fail", self.nuv(), r.choice(["exec", "comm"])))
-            elif x < 0.35: out.append(("raise", self.nuv(), r.choice(self.events + ("i1", "i2"))))
+            elif x < 0.35: out.append(("raise", self.nuv(), r.choice(self.events if r.random() < self.p_loop else ("i1", "i2"))))
             elif x < 0.55: out.append(("log", self.nuv(), "L%d" % self.uv))
-            elif x < 0.70: out.append(("send", self.nuv(), r.choice(self.events), r.choice(["", "", "#_internal"])))
+            elif x < 0.70: out.append(("send", self.nuv(), r.choice(self.events if r.random() < self.p_loop else ("i1", "i2")), r.choice(["", "", "#_internal"])))
             elif x < 0.9 and depth < 2:
                 uv = self.nuv()
                 ch = self.block(depth + 1)
@@ -275,8 +275,9 @@ class Gen:
                 for _ in range(r.choice([0, 1, 1, 2, 3])):
                     t = Trans()
                     if r.random() >= self.p_eventless:
-                        t.event = r.choice(self.events)
+                        t.event = r.choice(self.events + (("i1",) if r.random() < 0.3 else ()))
                         if r.random() < 0.1: t.event = t.event + " " + r.choice(self.events)
+                        if r.random() < 0.04: t.event = r.choice(["*", "done.state", "error", "done.state.*"])
                     if r.random() < self.p_cond or t.event is None: t.cond = self.cond()
                     if r.random() < self.p_targetless: t.targets = None
                     else:
@@ -301,3 +302,80 @@ class Gen:
 
 def events_for(rng, gen, n):
     return [rng.choice(gen.events) for _ in range(n)]
+
+
+# ------------------------------------------------------------------------------- s-expression reader
+def _tok(s):
+    out, cur = [], ""
+    for ch in s:
+        if ch in "()":
+            if cur: out.append(cur); cur = ""
+            out.append(ch)
+        elif ch == " ":
+            if cur: out.append(cur); cur = ""
+        else: cur += ch
+    if cur: out.append(cur)
+    return out
+
+
+def _parse(toks, i):
+    assert toks[i] == "("
+    i += 1; lst = []
+    while toks[i] != ")":
+        if toks[i] == "(":
+            sub, i = _parse(toks, i)
+            lst.append(sub)
+        else:
+            lst.append(toks[i]); i += 1
+    return lst, i + 1
+
+
+def _exec_of(l):
+    k = l[0]
+    if k == "if": return ("if", int(l[1]), l[2], [_exec_of(x) for x in l[3:]])
+    if k == "elseif": return ("elseif", l[1])
+    if k == "else": return ("else",)
+    if k == "send": return ("send", int(l[1]), l[2], "" if l[3] == "-" else l[3])
+    if k in ("raise", "log", "fail"): return (k, int(l[1]), l[2])
+    if k == "assign": return ("assign", int(l[1]), int(l[2]), int(l[3]))
+    if k == "incr": return ("incr", int(l[1]), int(l[2]))
+    raise ValueError(l)
+
+
+def _node_of(l):
+    n = Node(l[0], "" if l[1] == "-" else l[1])
+    for it in l[2:]:
+        h = it[0]
+        if h == "init": n.init = list(it[1:])
+        elif h == "binding": n.late = True
+        elif h == "onentry": n.onentry.append([_exec_of(x) for x in it[1:]])
+        elif h == "onexit": n.onexit.append([_exec_of(x) for x in it[1:]])
+        elif h == "t":
+            n.trans.append(Trans(event=None if it[1] == "-" else it[1].replace(",", " "), cond=it[2], internal=it[3] == "i",
+                                 targets=None if it[4] == "-" else list(it[4]), content=[_exec_of(x) for x in it[5:]]))
+        else: n.children.append(_node_of(it))
+    return n
+
+
+def from_sexpr(s):
+    l, _ = _parse(_tok(s), 0)
+    return _node_of(l).link()
+
+
+# ------------------------------------------------------------------------------- chart classes
+def has_history_target(root):
+    hist = set(n.id for n in root.walk() if n.kind in ("history", "hdeep"))
+    return any(t.targets and any(g in hist for g in t.targets)
+               for n in root.walk() if n.kind not in ("history", "hdeep", "initial") for t in n.trans) or \
+           any(t.targets and any(g in hist for g in t.targets)
+               for n in root.walk() if n.kind in ("history", "hdeep", "initial") for t in n.trans) or \
+           any(n.init and any(g in hist for g in n.init) for n in root.walk())
+
+
+def has_nested_history(root):
+    root.link()
+    hs = [n for n in root.walk() if n.kind in ("history", "hdeep")]
+    for h in hs:
+        scope = h.parent.descendants()
+        if any(o is not h and o.kind in ("history", "hdeep") for o in scope): return True
+    return False
